@@ -39,7 +39,7 @@ func genConn(t *rapid.T, maxRecs int) ConnSpec {
 	var c ConnSpec
 	n := rapid.IntRange(1, maxRecs).Draw(t, "nrecs")
 	for i := 0; i < n; i++ {
-		r := Rec{App: rapid.IntRange(0, 2).Draw(t, "app"), Host: rapid.IntRange(0, 1).Draw(t, "host")}
+		r := Rec{App: rapid.SampledFrom([]int{0, 0, 1, 1, 2, 2, 3}).Draw(t, "app"), Host: rapid.IntRange(0, 1).Draw(t, "host")}
 		r.Size = rapid.OneOf(rapid.IntRange(0, 80), rapid.IntRange(200, 700), rapid.SampledFrom([]int{900, 1100, 3000})).Draw(t, "size")
 		switch rapid.IntRange(0, 11).Draw(t, "kind") {
 		case 0:
@@ -294,6 +294,17 @@ func classify(sc Scenario, o *Outcome) (bool, []string) {
 	add(sc.TinyQuota, "tiny-quota")
 	add(len(sc.Modes) > 1, "two-outputs")
 	add(sc.KeyHost, "two-key-fields")
+	badUTF8 := false
+	for _, g := range sc.Gens {
+		for _, cn := range g.Conns {
+			for _, r := range cn.Recs {
+				if r.App == 3 {
+					badUTF8 = true
+				}
+			}
+		}
+	}
+	add(badUTF8, "key-value-not-valid-utf8")
 	notDrained := false
 	if len(o.Stops) > 0 {
 		last := o.Stops[len(o.Stops)-1]
